@@ -24,7 +24,7 @@ find src -name '*.rs' -exec touch {} +
 for c in "${CHECKS[@]}"; do
   s=$(date +%s)
   (cd "$VERIF" && VERIF_REPO="$SCR/wt" ./check "$c" --tier quick) >"$SCR/check.log" 2>&1; rc=$?
-  sig=$(grep -m1 "^FAILURE" "$SCR/check.log" | sed -E 's/^FAILURE property=[A-Z0-9]+ signature=([^ ]+) ::.*/\1/')
+  sig=$(grep -m1 "^FAILURE" "$SCR/check.log" | sed -E 's/^FAILURE property=[A-Z0-9]+ signature=(.*) :: .*/\1/' | cut -c1-120)
   replay_ok="-"
   rp=$(grep -m1 "^VIOLATION" "$SCR/check.log" | sed -E 's/.*replay=//')
   if [ "$rc" = 1 ] && [ -n "$rp" ] && [ -f "$rp" ]; then
